@@ -24,7 +24,7 @@ LEVEL_NOTE = ("trusts the 20-line Kahn reference; a call still running after 10 
               "as looping")
 RULE = ("cases: (generated) trees of digraphs: top pure or nestable, up to 3 levels, each level "
         "a random digraph (cyclic or not) on <= 12 nodes with generated hash keys and "
-        "insertion order, followed by a program of <= 6 edge additions/removals; (enumerated) "
+        "insertion order, followed by a program of <= 6 edge additions/removals; in 1 case in 4 read-only closure queries are made while topological_order() is being consumed; verbose on in 1 case in 5; (enumerated) "
         "every digraph on n <= 4 (quick) or n = 5 (thorough) nodes x 3 hash-key patterns. "
         "non-trivial: a cyclic graph whose cycle is not reachable from an entry job, or a "
         "graph with >= 2 weak components, or a nested placement, or a program that crosses "
